@@ -8,7 +8,6 @@ use crate::delta::{DiffType, InMergeConflict, MergeParents, State, StateMachine}
 use crate::paint::{prepare, prepare_raw_line};
 use crate::style;
 use crate::utils::process::{self, CallingProcess};
-use crate::utils::tabs;
 
 // HACK: WordDiff should probably be a distinct top-level line state
 pub fn is_word_diff() -> bool {
@@ -136,9 +135,9 @@ impl StateMachine<'_> {
                 // is not a hunk line, but the parser does not have a more accurate state corresponding
                 // to this.
                 self.painter.paint_buffered_minus_and_plus_lines();
-                self.painter
-                    .output_buffer
-                    .push_str(&tabs::expand(&self.raw_line, &self.config.tab_cfg));
+                // (written as it came, like any line that delta does not render: e.g. the
+                // 'hash subject' line that follows the hunk directly in git log --oneline -p)
+                self.painter.output_buffer.push_str(&self.raw_line);
                 self.painter.output_buffer.push('\n');
                 // (the hunk goes on as the kind of diff it is: in a combined diff the lines
                 // after such a note still carry one marker column per parent)
